@@ -11,7 +11,7 @@ import HapVerif.Model.C16
 relative error `≤ 2^-24`.  `f32_rounding : Rounding f32`.
 
 Scope: `f32` models the *normal* range only (unbounded exponent): no subnormals, no
-overflow to infinity.  Hence `f32_rel_err` holds for every rational `x`; for the real
+overflow to infinity.  Hence `f32_relative_error` holds for every rational `x`; for the real
 binary32 it holds for `2^-126 ≤ |x| < 2^128(1 - 2^-25)`, which covers every value that
 `RebalanceWeight` can produce from `WFIn` inputs (magnitudes between `2^-24`-ish and `2^33`).
 -/
@@ -49,7 +49,7 @@ theorem pow2_natCast (n : Nat) : pow2 (n : Int) = ((2 ^ n : Nat) : Rat) := by
 /-! ## ilog2 -/
 
 /-- `2^e ≤ x < 2^(e+1)` for the exponent computed from `Nat.log2` of numerator and denominator -/
-theorem ilog2_spec {x : Rat} (hx : 0 < x) : pow2 (ilog2 x) ≤ x ∧ x < pow2 (ilog2 x + 1) := by
+theorem ilog2_bounds {x : Rat} (hx : 0 < x) : pow2 (ilog2 x) ≤ x ∧ x < pow2 (ilog2 x + 1) := by
   have hnum : 0 < x.num := Rat.num_pos.2 hx
   have hN : x.num.natAbs ≠ 0 := by omega
   have hD : x.den ≠ 0 := x.den_nz
@@ -111,14 +111,14 @@ theorem ilog2_spec {x : Rat} (hx : 0 < x) : pow2 (ilog2 x) ≤ x ∧ x < pow2 (i
 
 theorem ilog2_unique {x : Rat} {e : Int} (h1 : pow2 e ≤ x) (h2 : x < pow2 (e + 1)) : ilog2 x = e := by
   have hx : 0 < x := lt_of_lt_of_le (pow2_pos e) h1
-  obtain ⟨s1, s2⟩ := ilog2_spec hx
+  obtain ⟨s1, s2⟩ := ilog2_bounds hx
   have a : ilog2 x < e + 1 := (pow2_lt_iff _ _).1 (lt_of_le_of_lt s1 h2)
   have b : e < ilog2 x + 1 := (pow2_lt_iff _ _).1 (lt_of_le_of_lt h1 s2)
   omega
 
 theorem ilog2_mono {x y : Rat} (hx : 0 < x) (hxy : x ≤ y) : ilog2 x ≤ ilog2 y := by
-  obtain ⟨s1, _⟩ := ilog2_spec hx
-  obtain ⟨_, t2⟩ := ilog2_spec (lt_of_lt_of_le hx hxy)
+  obtain ⟨s1, _⟩ := ilog2_bounds hx
+  obtain ⟨_, t2⟩ := ilog2_bounds (lt_of_lt_of_le hx hxy)
   have : ilog2 x < ilog2 y + 1 := (pow2_lt_iff _ _).1 (lt_of_le_of_lt (le_trans s1 hxy) t2)
   omega
 
@@ -210,7 +210,7 @@ theorem f32_neg (x : Rat) : f32 (-x) = - f32 x := by
 /-- mantissa bounds: `2^23 ≤ x / ulp < 2^24` -/
 theorem mant_bounds {x : Rat} (hx : 0 < x) :
     (2 ^ 23 : Rat) ≤ x / pow2 (ilog2 x - 23) ∧ x / pow2 (ilog2 x - 23) < (2 ^ 24 : Rat) := by
-  obtain ⟨s1, s2⟩ := ilog2_spec hx
+  obtain ⟨s1, s2⟩ := ilog2_bounds hx
   have hu := pow2_pos (ilog2 x - 23)
   have e1 : pow2 (ilog2 x) = (2 ^ 23 : Rat) * pow2 (ilog2 x - 23) := by
     have : ilog2 x = 23 + (ilog2 x - 23) := by ring
@@ -226,7 +226,7 @@ theorem mant_bounds {x : Rat} (hx : 0 < x) :
   · rw [← e2]; exact s2
 
 theorem f32_abs_err_pos {x : Rat} (hx : 0 < x) : |f32 x - x| ≤ x * (1 / 2 ^ 24) := by
-  obtain ⟨s1, _⟩ := ilog2_spec hx
+  obtain ⟨s1, _⟩ := ilog2_bounds hx
   have hu := pow2_pos (ilog2 x - 23)
   rw [f32_pos hx]
   have hre := roundEven_err (x / pow2 (ilog2 x - 23))
@@ -242,8 +242,8 @@ theorem f32_abs_err_pos {x : Rat} (hx : 0 < x) : |f32 x - x| ≤ x * (1 / 2 ^ 24
     _ = pow2 (ilog2 x) * (1 / 2 ^ 24) := by rw [e1]; ring
     _ ≤ x * (1 / 2 ^ 24) := mul_le_mul_of_nonneg_right s1 (by positivity)
 
-/-- E2 `f32_rel_err`: relative error at most `2^-24` (normal range; see the file header) -/
-theorem f32_rel_err (x : Rat) : |f32 x - x| ≤ |x| * (1 / 2 ^ 24) := by
+/-- E2 `f32_relative_error`: relative error at most `2^-24` (normal range; see the file header) -/
+theorem f32_relative_error (x : Rat) : |f32 x - x| ≤ |x| * (1 / 2 ^ 24) := by
   rcases lt_trichotomy x 0 with h | h | h
   · have hn : 0 < -x := by linarith
     have := f32_abs_err_pos hn
@@ -265,7 +265,7 @@ theorem f32_exact_pos {z k : Int} (hz0 : 0 < z) (hz : z ≤ 2 ^ 24) :
     f32 ((z : Rat) * pow2 k) = (z : Rat) * pow2 k := by
   have hz0' : (0 : Rat) < z := by exact_mod_cast hz0
   have hx : 0 < (z : Rat) * pow2 k := mul_pos hz0' (pow2_pos k)
-  obtain ⟨s1, _⟩ := ilog2_spec hx
+  obtain ⟨s1, _⟩ := ilog2_bounds hx
   -- 2^(e-k) ≤ z
   have h1 : pow2 (ilog2 ((z : Rat) * pow2 k) - k) ≤ (z : Rat) := by
     have : pow2 (ilog2 ((z : Rat) * pow2 k)) = pow2 (ilog2 ((z : Rat) * pow2 k) - k) * pow2 k := by
@@ -298,9 +298,9 @@ theorem f32_exact_pos {z k : Int} (hz0 : 0 < z) (hz : z ≤ 2 ^ 24) :
     have hk : k - ilog2 ((z : Rat) * pow2 k) + 23 = -1 := by omega
     rw [hm, hk, hz24, pow2_eq]; norm_num
 
-/-- E2 `f32_exact_int` (general form): integers of absolute value `≤ 2^24`, and their
+/-- E2 `f32_exact_of_int` (general form): integers of absolute value `≤ 2^24`, and their
 products with powers of two, are representable -/
-theorem f32_exact_int_pow2 (z k : Int) (hz : |z| ≤ 2 ^ 24) :
+theorem f32_exact_of_int_pow2 (z k : Int) (hz : |z| ≤ 2 ^ 24) :
     f32 ((z : Rat) * pow2 k) = (z : Rat) * pow2 k := by
   rcases lt_trichotomy z 0 with h | h | h
   · have hz' : -z ≤ 2 ^ 24 := by rw [abs_of_neg h] at hz; exact hz
@@ -312,8 +312,8 @@ theorem f32_exact_int_pow2 (z k : Int) (hz : |z| ≤ 2 ^ 24) :
   · have hz' : z ≤ 2 ^ 24 := by rw [abs_of_pos h] at hz; exact hz
     exact f32_exact_pos h hz'
 
-theorem f32_exact_int (z : Int) (hz : |z| ≤ 2 ^ 24) : f32 (z : Rat) = (z : Rat) := by
-  have := f32_exact_int_pow2 z 0 hz
+theorem f32_exact_of_int (z : Int) (hz : |z| ≤ 2 ^ 24) : f32 (z : Rat) = (z : Rat) := by
+  have := f32_exact_of_int_pow2 z 0 hz
   have e : pow2 0 = 1 := by rw [pow2_eq]; simp
   rwa [e, mul_one] at this
 
@@ -348,7 +348,7 @@ theorem f32_nonneg {x : Rat} (hx : 0 ≤ x) : 0 ≤ f32 x := by
   · subst h; simp [f32]
   · exact le_of_lt (f32_pos_of_pos h)
 
-theorem f32_mono_pos {x y : Rat} (hx : 0 < x) (hxy : x ≤ y) : f32 x ≤ f32 y := by
+theorem f32_monotone_pos {x y : Rat} (hx : 0 < x) (hxy : x ≤ y) : f32 x ≤ f32 y := by
   have hy : 0 < y := lt_of_lt_of_le hx hxy
   rcases Int.lt_or_eq_of_le (ilog2_mono hx hxy) with hlt | heq
   · calc f32 x ≤ pow2 (ilog2 x + 1) := (f32_binade hx).2
@@ -362,11 +362,11 @@ theorem f32_mono_pos {x y : Rat} (hx : 0 < x) (hxy : x ≤ y) : f32 x ≤ f32 y 
       exact_mod_cast this
     exact mul_le_mul_of_nonneg_right this (le_of_lt hu)
 
-/-- E2 `f32_mono` -/
-theorem f32_mono {x y : Rat} (hxy : x ≤ y) : f32 x ≤ f32 y := by
+/-- E2 `f32_monotone` -/
+theorem f32_monotone {x y : Rat} (hxy : x ≤ y) : f32 x ≤ f32 y := by
   rcases lt_trichotomy x 0 with hx | hx | hx
   · rcases lt_or_ge y 0 with hy | hy
-    · have := f32_mono_pos (x := -y) (y := -x) (by linarith) (by linarith)
+    · have := f32_monotone_pos (x := -y) (y := -x) (by linarith) (by linarith)
       rw [f32_neg, f32_neg] at this; linarith
     · have h1 : f32 x ≤ 0 := by
         have := f32_nonneg (x := -x) (by linarith)
@@ -375,7 +375,7 @@ theorem f32_mono {x y : Rat} (hxy : x ≤ y) : f32 x ≤ f32 y := by
   · subst hx
     have : f32 0 = 0 := by simp [f32]
     rw [this]; exact f32_nonneg hxy
-  · exact f32_mono_pos hx hxy
+  · exact f32_monotone_pos hx hxy
 
 /-! ## the interface -/
 
@@ -387,10 +387,10 @@ structure Rounding (rnd : Rat → Rat) : Prop where
   rel : ∀ x : Rat, |rnd x - x| ≤ |x| * (1 / 2 ^ 24)
 
 theorem f32_rounding : Rounding f32 where
-  mono := f32_mono
+  mono := f32_monotone
   zero := by simp [f32]
-  exact := f32_exact_int_pow2
-  rel := f32_rel_err
+  exact := f32_exact_of_int_pow2
+  rel := f32_relative_error
 
 theorem id_rounding : Rounding id where
   mono := fun h => h
